@@ -1952,8 +1952,10 @@ class _ParametersRestorer:
             obj = self._parameters.self
             if obj is not None:
                 for pname in self._unset:
-                    if pname in self._restore and pname not in self._refs:
-                        obj._param__private.values.pop(pname, None)
+                    values = obj._param__private.values
+                    if (pname in self._restore and pname not in self._refs and
+                            pname in values and values[pname] is self._restore[pname]):
+                        del values[pname]
         finally:
             self._restore = {}
 
@@ -2942,7 +2944,10 @@ class Parameters:
                 if not any(w is queued for queued in watchers)
             ]
             for name in unset:
-                self_.self._param__private.values.pop(name, None)
+                # (unless a watcher has assigned something else meanwhile)
+                values = self_.self._param__private.values
+                if name in values and values[name] is params[name]:
+                    del values[name]
 
     def _update_event_type(self_, watcher, event, triggered):
         """Return an updated Event object with the type field set appropriately."""
